@@ -102,6 +102,7 @@ type ChainReq struct {
 	NoStore     bool   `json:"handler_sets_cache_control_no_store,omitempty"`
 	FlushFirst  bool   `json:"handler_flushes_before_first_write,omitempty"` // the streaming pattern: commit the header, then write
 	AddCE       bool   `json:"handler_adds_content_encoding_br,omitempty"`   // the route function declares its own payload br-coded: Header().Add, a layered coding
+	LongPath    bool   `json:"path_of_2200_bytes,omitempty"`                 // target route: the id segment is 2.2 KB long (a key, a token, an encoded query)
 
 	payload []byte
 	res     [2]*ChainRes // 0: simulated run, 1: sequential twin
@@ -233,6 +234,14 @@ type chainPanicBag struct {
 }
 
 func (p chainPanicBag) String() string { return p.text }
+
+// pad makes the id segment of a LongPath request 2.2 KB long.
+func (r *ChainReq) pad() string {
+	if r.LongPath && r.Target == "route" {
+		return strings.Repeat("k", 2200)
+	}
+	return ""
+}
 
 // panicText is what fmt.Sprint shows for the value the request panics with.
 func (r *ChainReq) panicText() string {
@@ -449,13 +458,14 @@ func (e *chainEnv) routeFunc(req *restful.Request, resp *restful.Response) {
 			e.ev(fmt.Sprintf("entity-misread:%v:%q", err, ent.Tok))
 		}
 	}
-	e.crash("handler:before")
-	if r.AddCE {
-		resp.AddHeader("Content-Encoding", "br")
-	}
 	if r.EarlyHints {
 		resp.AddHeader("Link", "</style.css>; rel=preload")
 		resp.WriteHeader(http.StatusEarlyHints) // interim: the real status and the body follow
+		resp.Header().Del("Link")
+	}
+	e.crash("handler:before")
+	if r.AddCE {
+		resp.AddHeader("Content-Encoding", "br")
 	}
 	if r.NoStore {
 		resp.AddHeader("Cache-Control", "no-store")
@@ -693,7 +703,7 @@ func (r *ChainReq) httpReq(t *sim.Task) *http.Request {
 	}
 	switch r.Target {
 	case "route":
-		return NewReq("GET", fmt.Sprintf("/svc/data/tok%d", r.ID), hdr, nil, 0, r.ID)
+		return NewReq("GET", fmt.Sprintf("/svc/data/tok%d%s", r.ID, r.pad()), hdr, nil, 0, r.ID)
 	case "route2":
 		return NewReq("GET", fmt.Sprintf("/svc2/data/tok%d", r.ID), hdr, nil, 0, r.ID)
 	case "twin":
@@ -1048,6 +1058,7 @@ func genChainReq(tp *sim.Tape, cfg *ChainCfg, k chainKnobs, id int) *ChainReq {
 	if k.addCE && isRouted(r.Target) && r.PanicAt == "" && tp.Chance(50) {
 		r.AddCE = true
 	}
+	r.LongPath = r.Target == "route" && tp.Chance(25)
 	if r.Early {
 		// a handler that closes the response writer itself is only meaningful if nothing is written afterwards
 		if r.PanicAt != "" {
